@@ -8,7 +8,8 @@ rm -rf $D; mkdir -p $D
 (cd /repo && tar --exclude=target --exclude=.git -cf - .) | tar -x -C $D
 cd $D
 cp $WT/tests/demo_$LOW.rs tests/ || exit 1
-export CARGO_TARGET_DIR=/var/tmp/seed-target
+export CARGO_TARGET_DIR=$D/target   # never share a target directory between different trees (cargo freshness is mtime-based)
+find $D -type f -exec touch {} +
 echo "== demo without the change"; cargo test --offline --test demo_$LOW 2>&1 | grep -E "^test result" ; r_without=$?
 patch -p1 -s < $WT/patch.diff || { echo "patch does not apply"; exit 1; }
 echo "== demo with the change"; cargo test --offline --test demo_$LOW 2>&1 | grep -E "^test result"
